@@ -79,6 +79,7 @@ class Compiler:
     node_pool: list[bny.Node]
     rule_node_ids: dict[str, list[int]]
     temp_tag_index: int = 0
+    next_temp: int = -1
 
     @dataclass
     class RuleChain:
@@ -221,6 +222,27 @@ class Compiler:
                                                                 f'on the right hand side of any pattern constraint')
                     except (KeyError, IndexError):
                         raise SemanticError(f'Pattern {cons.pat.id} never occurs before.')
+        self.next_temp = next_temp
+
+    def _renumber_temp(self, chain: RuleChain) -> tuple[list, list]:
+        """
+        Give the temporary patterns of a chain to be inlined fresh numbers,
+        so that several references to one rule do not share temporary tags.
+        """
+        mapping = {}
+
+        def fresh(tid: str) -> str:
+            if tid not in mapping:
+                mapping[tid] = str(self.next_temp)
+                self.next_temp -= 1
+            return mapping[tid]
+
+        name = [psr.Pattern(id=fresh(c.id)) if isinstance(c, psr.Pattern) and c.id[0] == '-' else c
+                for c in chain.name]
+        cons_set = [psr.TagConstraint(pat=psr.Pattern(id=' '.join(fresh(x) for x in cons.pat.id.split(' '))),
+                                      options=cons.options) if cons.pat.id[0] == '-' else cons
+                    for cons in chain.cons_set]
+        return name, cons_set
 
     def _replicate_rules(self):
         self.rep_rules = {}
@@ -236,13 +258,13 @@ class Compiler:
                     for chain in cur_chains:
                         chain.name.append(comp)
                 else:
-                    # Note: this repeats temporary tag numbers, which needs to be fixed before emit.
                     new_chains = [self.RuleChain(id=rule.id.id,
-                                                 name=chain.name+ref_chain.name,
-                                                 cons_set=chain.cons_set+ref_chain.cons_set,
+                                                 name=chain.name+ref_name,
+                                                 cons_set=chain.cons_set+ref_cons,
                                                  sign_cons=chain.sign_cons)
                                   for ref_chain in self.rep_rules[comp.id]
-                                  for chain in cur_chains]
+                                  for chain in cur_chains
+                                  for ref_name, ref_cons in [self._renumber_temp(ref_chain)]]
                     assert len(new_chains) > 0
                     cur_chains = new_chains
             if rule.id.id not in self.rep_rules:
